@@ -26,6 +26,8 @@ func init() {
 		"strconv.ParseFloat": extParseFloat,
 		"fmt.Sscanf":    extSscanf,
 		"encoding/xml.Unmarshal": extUnmarshal,
+		"encoding/xml.Marshal":       extMarshal,
+		"encoding/xml.MarshalIndent": extMarshal,
 		"(*encoding/xml.Decoder).Token": extToken,
 		"encoding/xml.NewDecoder": extNewDecoder,
 		"(*encoding/xml.Encoder).Encode":        extEncode,
@@ -34,7 +36,11 @@ func init() {
 		"archive/zip.NewReader":       extZipNewReader,
 		"(*strings.Builder).WriteString": extBuilderWrite,
 		"(*strings.Builder).String":      extBuilderString,
-		"(*archive/zip.File).Open":    extNonNilOnSuccess,
+		"(*archive/zip.File).Open":    extZipFileOpen,
+		"io.ReadAll":                  extReadAll,
+		"image/png.Decode":            extNonNilOnSuccess,
+		"image/jpeg.Decode":           extNonNilOnSuccess,
+		"image/gif.Decode":            extNonNilOnSuccess,
 		"os.MkdirAll":                 extIOErr,
 		"os.Create":                   extOpenResource,
 		"archive/zip.NewWriter":       extZipNewWriter,
@@ -114,6 +120,31 @@ func extSscanf(f *frame, cm *ssa.CallCommon, args []Val, st *State, name string,
 			f.c.assume(st, fmt.Sprintf("(= (= (itag %s) 0) %s)", r.Tuple[1].T, okc))
 			f.c.assumed["fmt.Sscanf(s, \"%d\", &n): succeeds iff atoi_ok(s) and then n = atoi(s) (approximation: leading sign/whitespace handling of Sscanf not modelled)"] = true
 			return r
+		}
+	}
+	// fmt.Sscanf(s, "P%dQ", &n): success and value are functions of s; inverse of the concatenation P ++ itoa(n) ++ Q...
+	if k, ok := cm.Args[1].(*ssa.Const); ok && k.Value != nil {
+		if p, q, ok := scanPrefixDFormat(constant.StringVal(k.Value)); ok {
+			elems := f.varargElems(cm.Args[2], st)
+			vals := varargValues(cm.Args[2])
+			if len(elems) == 1 && len(vals) == 1 {
+				if mi, isMI := vals[0].(*ssa.MakeInterface); isMI {
+					if pt, isPtr := mi.X.Type().Underlying().(*types.Pointer); isPtr && types.Identical(pt.Elem(), types.Typ[types.Int]) {
+						okF, valF := g.sscanfPrefixD(constant.StringVal(k.Value), p, q)
+						ptr := fmt.Sprintf("(iref %s)", elems[0])
+						h := g.TE.CellHeap(types.Typ[types.Int])
+						okc := fmt.Sprintf("(%s %s)", okF, args[0].T)
+						// on failure the operand may or may not have been stored before the mismatch: unconstrained
+						junk := f.c.declare("scanned", SInt)
+						cur := st.Heap(h)
+						st.heaps[h] = f.c.defineHeap(h, fmt.Sprintf("(store %s %s (ite %s (%s %s) %s))", cur, ptr, okc, valF, args[0].T, junk))
+						r := f.freshResult(resT, st, name)
+						f.c.assume(st, fmt.Sprintf("(= (= (itag %s) 0) %s)", r.Tuple[1].T, okc))
+						f.c.assumed["fmt.Sscanf(s, \"P%dQ\", &n) (literal P, Q; Q not starting with a digit, '_' or sign): success and value are functions of s, and on P ++ itoa(n) ++ t with t starting with Q it succeeds with value n (axiom); on failure the operand is unconstrained"] = true
+						return r
+					}
+				}
+			}
 		}
 	}
 	// general format: Sscanf writes only through the pointers it is given
@@ -239,6 +270,14 @@ func extSprintf(f *frame, cm *ssa.CallCommon, args []Val, st *State, name string
 	if format == "%d" && len(elems) == 1 {
 		c.assumed["fmt.Sprintf(\"%d\", n) = itoa(n) with atoi(itoa(n)) = n (axiom)"] = true
 		return Val{T: c.define(name, SStr, fmt.Sprintf("(itoa (iint %s))", elems[0])), Typ: resT}
+	}
+	// formats made only of literal text and plain %s / %d verbs whose operands are string- / integer-kinded values
+	// without methods: the result is the concatenation of the pieces ("<prefix>%d" alone keeps its own symbol below)
+	if _, isPrefixD := prefixDFormat(format); !isPrefixD {
+		if t, ok := f.sprintfConcat(format, cm.Args[1], elems); ok {
+			c.assumed["fmt.Sprintf with a format of literal text and plain %s/%d verbs (string-/integer-kinded operands without methods) = concatenation of the pieces, %d as itoa (right-nested Str_cat)"] = true
+			return Val{T: c.define(name, SStr, t), Typ: resT}
+		}
 	}
 	// general: uninterpreted function of the format and the argument values, injective-free
 	var sorts []string
@@ -542,4 +581,180 @@ func extBuilderString(f *frame, cm *ssa.CallCommon, args []Val, st *State, name 
 	}
 	h := sbHeap(f.c.g)
 	return Val{T: f.c.define(name, SStr, fmt.Sprintf("(select %s %s)", st.Heap(h), args[0].T)), Typ: resT}
+}
+
+
+// ---- read side of the archive model: the content of a zip entry is a function of the *zip.File (zf_len, zf_byte);
+// (*zip.File).Open returns a fresh reader positioned at the start of that content; io.ReadAll on a reader that has
+// not been read yet returns, on success, a fresh byte slice holding exactly that content.
+func zipReadHeaps(g *Gen) (src, unread string) {
+	src, unread = "G_ghost_rcsrc", "G_ghost_rcunread"
+	g.TE.noteHeapRaw(src, "(Array Ref Ref)")
+	g.TE.noteHeapRaw(unread, "(Array Ref Bool)")
+	return
+}
+
+const zipReadAssumption = "archive read model: the bytes of a zip entry are a function of its *zip.File (zf_len/zf_byte); (*zip.File).Open returns a fresh reader at the start of the entry; io.ReadAll on a reader not read before returns exactly those bytes in a fresh slice when it reports no error (decompression, CRC checking and the zip directory itself are inside archive/zip and not modelled)"
+
+func extZipFileOpen(f *frame, cm *ssa.CallCommon, args []Val, st *State, name string, resT types.Type, pos token.Pos) Val {
+	c := f.c
+	pre := st.next
+	r := extNonNilOnSuccess(f, cm, args, st, name, resT, pos)
+	rc, err := r.Tuple[0], r.Tuple[1]
+	ok := fmt.Sprintf("(= (itag %s) 0)", err.T)
+	src, unread := zipReadHeaps(c.g)
+	c.assume(st, fmt.Sprintf("(=> %s (and (not (= (iref %s) nil)) (not (alloc (iref %s) %s))))", ok, rc.T, rc.T, pre))
+	st.heaps[src] = c.define("rcsrc", "(Array Ref Ref)", fmt.Sprintf("(ite %s (store %s (iref %s) %s) %s)", ok, st.Heap(src), rc.T, args[0].T, st.Heap(src)))
+	st.heaps[unread] = c.define("rcunread", "(Array Ref Bool)", fmt.Sprintf("(ite %s (store %s (iref %s) true) %s)", ok, st.Heap(unread), rc.T, st.Heap(unread)))
+	c.assumed[zipReadAssumption] = true
+	return r
+}
+
+func extReadAll(f *frame, cm *ssa.CallCommon, args []Val, st *State, name string, resT types.Type, pos token.Pos) Val {
+	c := f.c
+	g := c.g
+	pre := st.next
+	f.havocNext(st)
+	r := f.freshResult(resT, st, name)
+	data, err := r.Tuple[0], r.Tuple[1]
+	src, unread := zipReadHeaps(g)
+	bt := data.Typ.Underlying().(*types.Slice).Elem()
+	ch := g.TE.CellHeap(bt)
+	old := st.Heap(ch)
+	f.havocHeaps(st, []string{ch})
+	cur := st.Heap(ch)
+	// the only cells that may differ are those of arrays allocated by this call
+	c.assume(st, fmt.Sprintf("(forall ((r Ref)) (! (=> (alloc r %s) (= (select %s r) (select %s r))) :pattern ((select %s r))))", pre, cur, old, cur))
+	zl := g.UF("zf_len", []string{"Ref"}, SInt)
+	zb := g.UF("zf_byte", []string{"Ref", SInt}, g.TE.SortOf(bt))
+	rd := fmt.Sprintf("(iref %s)", args[0].T)
+	file := fmt.Sprintf("(select %s %s)", st.Heap(src), rd)
+	cond := fmt.Sprintf("(and (= (itag %s) 0) (select %s %s))", err.T, st.Heap(unread), rd)
+	c.assume(st, fmt.Sprintf("(>= (%s %s) 0)", zl, file))
+	c.assume(st, fmt.Sprintf("(=> %s (and (= (slen %s) (%s %s)) (= (soff %s) 0) (or (= (scap %s) 0) (>= (sarr %s) %s)) (forall ((i Int)) (! (=> (and (<= 0 i) (< i (slen %s))) (= (select %s (selem %s i)) (%s %s i))) :pattern ((selem %s i))))))",
+		cond, data.T, zl, file, data.T, data.T, data.T, pre, data.T, cur, data.T, zb, file, data.T))
+	st.heaps[unread] = c.define("rcunread", "(Array Ref Bool)", fmt.Sprintf("(store %s %s false)", st.Heap(unread), rd))
+	c.assumed[zipReadAssumption] = true
+	return r
+}
+
+// splitFormat splits a Printf format into literal pieces and verbs; ok only if every verb is exactly %s or %d
+// (no flags, width, precision, argument indexes or %%). pieces has len(verbs)+1 entries.
+func splitFormat(format string) (pieces []string, verbs []byte, ok bool) {
+	cur := ""
+	for i := 0; i < len(format); i++ {
+		if format[i] != '%' {
+			cur += string(format[i])
+			continue
+		}
+		if i+1 >= len(format) || (format[i+1] != 's' && format[i+1] != 'd') {
+			return nil, nil, false
+		}
+		pieces = append(pieces, cur)
+		cur = ""
+		verbs = append(verbs, format[i+1])
+		i++
+	}
+	pieces = append(pieces, cur)
+	return pieces, verbs, true
+}
+
+// plainOperand: the operand's static type is string-kinded (for %s) or integer-kinded (for %d) and has no methods
+// (neither T nor *T), so fmt cannot be redirected through Formatter/Stringer/error.
+func plainOperand(v ssa.Value, verb byte) bool {
+	mi, ok := v.(*ssa.MakeInterface)
+	if !ok {
+		return false
+	}
+	t := mi.X.Type()
+	b, ok := t.Underlying().(*types.Basic)
+	if !ok {
+		return false
+	}
+	if verb == 's' && b.Info()&types.IsString == 0 {
+		return false
+	}
+	if verb == 'd' && b.Info()&types.IsInteger == 0 {
+		return false
+	}
+	if types.NewMethodSet(t).Len() != 0 || types.NewMethodSet(types.NewPointer(t)).Len() != 0 {
+		return false
+	}
+	return true
+}
+
+// sprintfConcat builds the right-nested concatenation term p0 ++ (a0 ++ (p1 ++ (a1 ++ ...))) for a format of
+// literal pieces and %s/%d verbs (empty literal pieces are skipped).
+func (f *frame) sprintfConcat(format string, varargs ssa.Value, elems []string) (string, bool) {
+	pieces, verbs, ok := splitFormat(format)
+	if !ok || len(verbs) == 0 || len(verbs) != len(elems) {
+		return "", false
+	}
+	vals := varargValues(varargs)
+	if vals == nil || len(vals) != len(verbs) {
+		return "", false
+	}
+	var parts []string
+	for i, vb := range verbs {
+		if !plainOperand(vals[i], vb) {
+			return "", false
+		}
+		if pieces[i] != "" {
+			parts = append(parts, f.c.g.StrLit(pieces[i]))
+		}
+		if vb == 's' {
+			parts = append(parts, fmt.Sprintf("(istr %s)", elems[i]))
+		} else {
+			parts = append(parts, fmt.Sprintf("(itoa (iint %s))", elems[i]))
+		}
+	}
+	if last := pieces[len(pieces)-1]; last != "" {
+		parts = append(parts, f.c.g.StrLit(last))
+	}
+	t := parts[len(parts)-1]
+	for i := len(parts) - 2; i >= 0; i-- {
+		t = fmt.Sprintf("(Str_cat %s %s)", parts[i], t)
+	}
+	return t, true
+}
+
+// scanPrefixDFormat: a Sscanf format "P%dQ" with literal P and Q free of '%' and white space, Q non-empty and not
+// starting with a character %d would consume (digit, '_', sign).
+func scanPrefixDFormat(format string) (p, q string, ok bool) {
+	i := strings.Index(format, "%d")
+	if i < 0 || strings.Count(format, "%") != 1 {
+		return "", "", false
+	}
+	p, q = format[:i], format[i+2:]
+	if q == "" || strings.ContainsAny(p+q, " \t\r\n") {
+		return "", "", false
+	}
+	if c := q[0]; (c >= '0' && c <= '9') || c == '_' || c == '+' || c == '-' {
+		return "", "", false
+	}
+	return p, q, true
+}
+
+// sscanfPrefixD declares the two symbols of fmt.Sscanf(s, "P%dQ", &n) — success and scanned value as functions of
+// the input string — and the round-trip axiom with the concatenation P ++ itoa(n) ++ t for every t that starts with Q.
+func (g *Gen) sscanfPrefixD(format, p, q string) (okF, valF string) {
+	lit := g.StrLit(format)
+	okF = g.UF("sscanf_ok_"+lit, []string{SStr}, SBool)
+	valF = g.UF("sscanf_val_"+lit, []string{SStr}, SInt)
+	conds := []string{fmt.Sprintf("(>= (Str_len t) %d)", len(q))}
+	for i := 0; i < len(q); i++ {
+		conds = append(conds, fmt.Sprintf("(= (Str_at t %d) %d)", i, q[i]))
+	}
+	in := "(Str_cat (itoa n) t)"
+	if p != "" {
+		in = fmt.Sprintf("(Str_cat %s %s)", g.StrLit(p), in)
+	}
+	ax := fmt.Sprintf("(assert (forall ((n Int) (t Str)) (! (=> (and %s) (and (%s %s) (= (%s %s) n))) :pattern (%s))))", strings.Join(conds, " "), okF, in, valF, in, in)
+	for _, a := range g.axioms {
+		if a == ax {
+			return
+		}
+	}
+	g.axioms = append(g.axioms, ax)
+	return
 }
